@@ -264,6 +264,25 @@ func c06Must(c *Ctx, idx int) {
 	if r.Chance(60) {
 		text = gen.Mutate(r, text)
 	}
+	if idx%50 == 7 {
+		// long texts (members and non-members): every entry point must give the same verdict
+		n := []int{1000, 4096, 65535, 65536, 65537, 70000, 200000, 1 << 20}[(idx/50)%8]
+		switch (idx / 400) % 6 {
+		case 0:
+			text = "'" + strings.Repeat("x", n) + "'"
+		case 1:
+			text = "a" + strings.Repeat(" || a", n/5)
+		case 2:
+			text = "a" + strings.Repeat(" ", n) + ".b"
+		case 3:
+			text = "`[1" + strings.Repeat(",1", n/2) + "]`"
+		case 4:
+			text = "a" + strings.Repeat(".a", n/2) + " ||"
+		case 5:
+			text = "[a" + strings.Repeat(", a", n/3) + "]"
+		}
+		c06EntryPoints(c, text)
+	}
 	_, lc := c.LibCompile(text)
 	c.Intent(text, "MustCompile")
 	var pv any
@@ -499,10 +518,47 @@ func c06Foreign(c *Ctx, idx int) {
 	c.Nontrivial(text)
 }
 
+// c06EntryPoints: Search, Compile+Search and MustCompile+Search give the same outcome for one text.
+func c06EntryPoints(c *Ctx, text string) {
+	doc := map[string]any{"a": map[string]any{"a": json.Number("1"), "b": "x"}, "b": json.Number("2")}
+	ls := c.LibSearch(text, doc)
+	e, lc := c.LibCompile(text)
+	var le LibOut
+	if lc.Err != nil || lc.Panic != nil {
+		le = lc
+		le.Res = nil
+	} else {
+		le = c.LibExprSearch(e, text, doc)
+	}
+	c.Intent(text, "MustCompile")
+	lm := Observe(func() (res any, err error) {
+		var me *jmespath.Expression
+		func() {
+			defer func() {
+				if p := recover(); p != nil {
+					err = fmt.Errorf("%w: MustCompile panicked", jmespath.ErrSyntax)
+				}
+			}()
+			me = jmespath.MustCompile(text)
+		}()
+		if err != nil {
+			return nil, err
+		}
+		return me.Search(doc)
+	})
+	feats := map[string]string{"text_bytes": fmt.Sprint(len(text))}
+	if !SameOutcome(ls, le, false) {
+		c.Report(Violation{Rule: "C06/differs-from-fresh-search", Expr: clipS(text, 200), Got: ShowOut(le) + " (Compile + Expression.Search)", Want: ShowOut(ls) + " (one-shot Search)", Features: feats})
+	}
+	if (ls.Err != nil) != (lm.Err != nil) || (ls.Err == nil && !SameOutcome(ls, lm, false)) {
+		c.Report(Violation{Rule: "C06/mustcompile", Expr: clipS(text, 200), Got: ShowOut(lm) + " (MustCompile + Expression.Search)", Want: ShowOut(ls) + " (one-shot Search)", Features: feats})
+	}
+}
+
 func init() {
 	Register(&Property{
 		ID:            "C06",
-		Rule:          "histories of 3-8 Expression.Search calls of one compiled expression over 2-4 documents with repeats (d1 dx d1 dy ...); expressions biased to functions and selectors that build or reorder containers (sort, sort_by, reverse, merge, group_by, from_items, to_array, [*], slices, flatten, multi-select, filters, literals returned by reference and then sorted/reversed/merged); plus a directed list (every ordering/reversing/merging function x every way of passing an array of the document or a literal without a copy: x, x[*], x[:], x[], x[?`true`], to_array(x), (x), x | @, ...); every slice of every document carries 1-3 spare capacity slots filled with canaries; per call: outcome = fresh one-shot Search of the same text on a deep copy, deep snapshot of every document unchanged (dynamic types, values, lengths, capacity tails, container identities), AST fingerprint of the compiled expression unchanged (hook), every earlier result still equal to the snapshot taken when it was returned; edited-in-place stream: the caller edits its document in place between calls (leaf replaced, elements/values swapped, member added or removed; container identities kept) and both Expression.Search and one-shot Search on those same containers must equal a fresh Search on a deep copy of the current content; foreign-containers stream: documents whose plain containers hold typed slices/maps, arrays, structs and pointers keep the same dynamic type and value at every position after every call; MustCompile panics exactly when Compile fails (corpus expressions and mutants); non-trivial = a history that returned a non-empty container; distinct by (expression, first document)",
+		Rule:          "histories of 3-8 Expression.Search calls of one compiled expression over 2-4 documents with repeats (d1 dx d1 dy ...); expressions biased to functions and selectors that build or reorder containers (sort, sort_by, reverse, merge, group_by, from_items, to_array, [*], slices, flatten, multi-select, filters, literals returned by reference and then sorted/reversed/merged); plus a directed list (every ordering/reversing/merging function x every way of passing an array of the document or a literal without a copy: x, x[*], x[:], x[], x[?`true`], to_array(x), (x), x | @, ...); every slice of every document carries 1-3 spare capacity slots filled with canaries; per call: outcome = fresh one-shot Search of the same text on a deep copy, deep snapshot of every document unchanged (dynamic types, values, lengths, capacity tails, container identities), AST fingerprint of the compiled expression unchanged (hook), every earlier result still equal to the snapshot taken when it was returned; edited-in-place stream: the caller edits its document in place between calls (leaf replaced, elements/values swapped, member added or removed; container identities kept) and both Expression.Search and one-shot Search on those same containers must equal a fresh Search on a deep copy of the current content; foreign-containers stream: documents whose plain containers hold typed slices/maps, arrays, structs and pointers keep the same dynamic type and value at every position after every call; MustCompile panics exactly when Compile fails (corpus expressions, mutants, and members/non-members of 1 KB .. 1 MiB, for which Search, Compile+Search and MustCompile+Search must give one outcome); non-trivial = a history that returned a non-empty container; distinct by (expression, first document)",
 		MinNontrivial: 1000,
 		Streams: []Stream{
 			{Name: "histories", N: func(c *Ctx) int { return tierN(c, 8000, 2000000) }, Run: c06History},
